@@ -73,6 +73,22 @@ def run(ctx):
                     SP.one_case(eng, res, sc, args, opts, explicit, None, S.HIST_KEYS, "layout", real=True, packed=packed,
                                 pack_refs=pack_refs)
                     nlay += 1
+        # fan-in among annotated tags: several tags waiting for the same inner tag, every delivery order
+        fan = S.Scenario()
+        fb = fan.add({"kind": "blob", "data": b"z"})
+        ft = fan.add({"kind": "tree", "entries": [(0o100644, b"f", fb)]})
+        fc = fan.add({"kind": "commit", "tree": ft, "parents": []})
+        inner = fan.add({"kind": "tag", "target": fc, "name": b"inner"})
+        outers = [fan.add({"kind": "tag", "target": inner, "name": b"o%d" % i}) for i in range(3)]
+        top = fan.add({"kind": "tag", "target": outers[0], "name": b"top"})
+        for i, g in enumerate(outers + [top]):
+            fan.refs.append((b"refs/tags/o%d" % i, g))
+        fan.compute()
+        ftags = [inner] + outers + [top]
+        frest = [fc, ft, fb]
+        for perm in itertools.permutations(ftags):
+            SP.one_case(eng, res, fan, [], [], [], list(perm) + frest, S.HIST_KEYS, "tag fan-in permutation")
+            nperm += 1
         SP.wide_cases(eng, res, S.HIST_KEYS, "order", quick, rng)
         SP.scale_cases(eng, res, S.HIST_KEYS, "order", quick, rng)
     finally:
